@@ -33,6 +33,13 @@ def _run_variant(spec):
     try:
         _copy_tree(tmp)
         for ed in spec["edits"]:
+            if "patch" in ed:
+                import subprocess
+                pf = os.path.join(report.VERIF, ed["patch"])
+                r = subprocess.run(["patch", "-p1", "-s", "-f", "--no-backup-if-mismatch", "-d", tmp] + (["-R"] if ed.get("reverse") else []) + ["-i", pf], capture_output=True, text=True)
+                if r.returncode != 0:
+                    return dict(spec, status="skipped", why=f"patch {ed['patch']} does not apply: {(r.stdout + r.stderr)[-200:]}")
+                continue
             p = os.path.join(tmp, ed["file"])
             if not os.path.exists(p):
                 return dict(spec, status="skipped", why=f"file {ed['file']} missing")
